@@ -529,7 +529,7 @@ def builtin_call(ex, ev: Eval, node, fname):
             r = V(xs.t.elem, z3.Select(list_arr(xs), i.z))
             ev.st.pc.append(z3.And(0 <= i.z, i.z < list_len(xs)))
 
-            def keyof(elem):
+            def keyof(elem, guard=()):
                 if "key" not in kw:
                     return elem
                 kf = kw["key"]
@@ -537,11 +537,14 @@ def builtin_call(ex, ev: Eval, node, fname):
                         and len(kf.args) == 1 and isinstance(kf.args[0], ast.Constant)):
                     return ex.attribute(ev, elem, kf.args[0].value, kf)
                 if isinstance(kf, ast.Lambda) and len(kf.args.args) == 1:
-                    return Eval(ex, ev.st, ev.spec, {**ev.bound, kf.args.args[0].arg: elem}, ev.old, ev.result).expr(kf.body)
+                    # the key is evaluated for every element: its side obligations hold under 'the element is in the list'
+                    return Eval(ex, ev.st, ev.spec, {**ev.bound, kf.args.args[0].arg: elem}, ev.old, ev.result,
+                                list(ev.guard) + list(guard)).expr(kf.body)
                 raise Unsupported("min/max key")
 
             j = z3.Int("j!argm")
-            kj, kr = keyof(V(xs.t.elem, z3.Select(list_arr(xs), j))), keyof(r)
+            kj = keyof(V(xs.t.elem, z3.Select(list_arr(xs), j)), guard=[z3.And(0 <= j, j < list_len(xs))])
+            kr = keyof(r)
             if kj.t not in (INT, REAL):
                 raise Unsupported("min/max key type")
             ev.st.pc.append(z3.ForAll([j], z3.Implies(z3.And(0 <= j, j < list_len(xs)), (kr.z <= kj.z) if fname == "min" else (kr.z >= kj.z)),
